@@ -168,3 +168,58 @@ func unwrapNot(v ssa.Value) (ssa.Value, bool) {
 		neg = !neg
 	}
 }
+
+// fieldTypeTest recognises a condition that tests the dynamic type of a field of an operand:
+// directly `_, ok := base.f.(*T)`, or through a one-block predicate helper of the package whose
+// result is such a test on one of its parameters. It returns the operand (base), the asserted
+// type and the block in which the test is evaluated.
+func fieldTypeTest(cond ssa.Value) (base ssa.Value, asserted types.Type, blk *ssa.BasicBlock, ok bool) {
+	direct := func(v ssa.Value) (ssa.Value, types.Type, *ssa.BasicBlock, bool) {
+		ex, isE := v.(*ssa.Extract)
+		if !isE || ex.Index != 1 {
+			return nil, nil, nil, false
+		}
+		ta, isTA := ex.Tuple.(*ssa.TypeAssert)
+		if !isTA || !ta.CommaOk {
+			return nil, nil, nil, false
+		}
+		ld, isLd := ta.X.(*ssa.UnOp)
+		if !isLd || ld.Op != token.MUL {
+			return nil, nil, nil, false
+		}
+		fa, isFA := ld.X.(*ssa.FieldAddr)
+		if !isFA {
+			return nil, nil, nil, false
+		}
+		return fa.X, ta.AssertedType, ta.Block(), true
+	}
+	if b, t, bl, isD := direct(cond); isD {
+		return b, t, bl, true
+	}
+	call, isCall := cond.(*ssa.Call)
+	if !isCall {
+		return nil, nil, nil, false
+	}
+	sc := call.Call.StaticCallee()
+	if sc == nil || len(sc.Blocks) != 1 {
+		return nil, nil, nil, false
+	}
+	ret, isRet := sc.Blocks[0].Instrs[len(sc.Blocks[0].Instrs)-1].(*ssa.Return)
+	if !isRet || len(ret.Results) != 1 {
+		return nil, nil, nil, false
+	}
+	b, t, _, isD := direct(ret.Results[0])
+	if !isD {
+		return nil, nil, nil, false
+	}
+	prm, isPrm := b.(*ssa.Parameter)
+	if !isPrm {
+		return nil, nil, nil, false
+	}
+	for i, pp := range sc.Params {
+		if pp == prm && i < len(call.Call.Args) {
+			return call.Call.Args[i], t, call.Block(), true
+		}
+	}
+	return nil, nil, nil, false
+}
